@@ -432,6 +432,22 @@ Example tail_field_examples :
   end.
 Proof. vm_compute. repeat split; reflexivity. Qed.
 
+(* TSIG (meta record; its text form exists for debugging): BADSIG is printed for error 16, the other data is
+   present or absent according to its length, a wrong MAC length is rejected *)
+Example tsig_examples :
+  match schema_of 250 with
+  | Some tsig =>
+      let t1 := [VName [[104; 109; 97; 99]; []]; VInt 281474976710655; VInt 300; VBytes [1; 2; 3; 255]; VInt 65535; VInt 16; VBytes []] in
+      let t2 := [VName [[104; 109; 97; 99]; []]; VInt 0; VInt 0; VBytes [0]; VInt 0; VInt 18; VBytes [0; 0; 0; 0; 0; 1]] in
+      (do text <- record_to_text ex_sty tsig t1; record_from_text ex_ctx tsig (schema_chk 250) text) = Ok t1
+      /\ (do text <- record_to_text ex_sty tsig t2; record_from_text ex_ctx tsig (schema_chk 250) (text ++ [10])) = Ok t2
+      /\ enum_print KRcode 16 = Ok [66; 65; 68; 83; 73; 71] /\ enum_print KRcode 4095 = Ok [52; 48; 57; 53]
+      /\ record_from_text ex_ctx tsig (schema_chk 250)
+           [104; 46; 32; 49; 32; 50; 32; 51; 32; 65; 81; 73; 68; 66; 65; 61; 61; 32; 48; 32; 48; 32; 48] = Lib eSyntax
+  | None => False
+  end.
+Proof. vm_compute. repeat split; reflexivity. Qed.
+
 (* gateway forms (dns.rdtypes.util.Gateway): IPSECKEY with no gateway and no key, with an IPv6 gateway, with a
    name below the origin; AMTRELAY with an IPv4 relay; a gateway text of the wrong form is rejected *)
 Example gateway_examples :
